@@ -2637,3 +2637,401 @@ def record_natural(seed, kind='local', nconn=1, mode='mixed'):
     finally:
         w.stop()
     return res
+
+
+# ======================================================================
+# X11 forwarding (specs/Forward/X11.tla): fake X server, raw X client
+# ======================================================================
+
+X_REAL_COOKIE = bytes(range(0xa0, 0xb0))
+X_PROTO = b'MIT-MAGIC-COOKIE-1'
+X_WRONG_PROTO = b'XDM-AUTHORIZATION-1'
+X_PAYLOAD = b'X-CLIENT-REQUESTS-FOLLOW-THE-SETUP' * 3
+X_REASON = b'Invalid authentication key\n'
+
+
+def _xpad(data):
+    return data + b'\0' * (-len(data) % 4)
+
+
+def x_setup(cookie, proto=X_PROTO, endian='l'):
+    """connection setup an X client sends first"""
+    order = 'little' if endian == 'l' else 'big'
+    u16 = lambda v: v.to_bytes(2, order)
+    return (endian.encode() + b'\0' + u16(11) + u16(0) + u16(len(proto)) +
+            u16(len(cookie)) + b'\0\0' + _xpad(proto) + _xpad(cookie))
+
+
+def x_refusal(endian='l'):
+    """the X11 failure reply asyncssh must send for a bad cookie"""
+    order = 'little' if endian == 'l' else 'big'
+    u16 = lambda v: v.to_bytes(2, order)
+    return (bytes((0, len(X_REASON))) + u16(11) + u16(0) +
+            u16((len(X_REASON) + 3) // 4) + _xpad(X_REASON))
+
+
+class FakeX(asyncio.Protocol):
+    """one connection accepted by the fake X server"""
+
+    def __init__(self, world):
+        self.world = world
+        self.data = bytearray()
+        self.eof = self.lost = False
+        world.xconns.append(self)
+
+    def connection_made(self, transport):
+        self.t = transport
+
+    def data_received(self, data):
+        first = not self.data
+        self.data += data
+        if first:
+            self.t.write(b'\x01XSERVER-SAYS-OK')
+
+    def eof_received(self):
+        self.eof = True
+        return False
+
+    def connection_lost(self, exc):
+        self.lost = True
+
+
+class X11World:
+    def __init__(self, workdir, server_allows=True, unix_display=False,
+                 seed=0):
+        import os
+        import random
+        import tempfile
+        world = self
+        self.rng = random.Random(seed)
+        self.loop = loop = new_loop()
+        self.tmp = tempfile.mkdtemp(prefix='C20x', dir=workdir)
+        self.client_xauth = os.path.join(self.tmp, 'client.Xauthority')
+        self.server_xauth = os.path.join(self.tmp, 'server.Xauthority')
+        self.xconns = []
+        self.cookie = {}            # session -> spoofed cookie (from the wire)
+        self.single = {}
+        self.proc = {}
+        self.display = {}
+        self.release = {}
+        self.live = set()           # granted and not closed
+        self.used = set()
+        self.closed = set()
+        self.req_order = []
+        self.x11_opens = []         # originator of every x11 channel open
+        self.leak = []
+        self.l1 = []
+        self.last_port = None
+        k = keys()
+        if unix_display:
+            self.xaddr = ('unix', '/c20-x11/X:5')
+            self.local_display = '/c20-x11/X:5'
+            dpy = b'5'
+        else:
+            self.xaddr = ('127.0.0.1', 6077)
+            self.local_display = '127.0.0.1:77'
+            dpy = b'77'
+        from asyncssh.x11 import SSHXAuthorityEntry, XAUTH_FAMILY_WILD
+        with open(self.client_xauth, 'wb') as f:
+            f.write(bytes(SSHXAuthorityEntry(XAUTH_FAMILY_WILD, b'', dpy,
+                                             X_PROTO, X_REAL_COOKIE)))
+        _verif.set_sink(self._sink)
+
+        class Server(asyncssh.SSHServer):
+            def connection_made(self, conn):
+                world.sconn = conn
+
+            def begin_auth(self, username):
+                return False
+
+        async def handler(process):
+            name = int(process.command)
+            world.display[name] = process.channel.get_x11_display()
+            await world.release[name].wait()
+            process.exit(0)
+
+        async def go():
+            self.acceptor = await asyncssh.listen(
+                '127.0.0.1', 2222, server_factory=Server,
+                server_host_keys=[k['host']], process_factory=handler,
+                x11_forwarding=server_allows, x11_auth_path=self.server_xauth)
+            if unix_display:
+                self.xsrv = await loop.create_unix_server(
+                    lambda: FakeX(world), self.xaddr[1])
+            else:
+                self.xsrv = await loop.create_server(lambda: FakeX(world),
+                                                     *self.xaddr)
+            self.conn = await asyncssh.connect(
+                '127.0.0.1', 2222, known_hosts=None, config=None,
+                client_keys=None, agent_path=None)
+        loop.run_until_complete(go())
+        loop.run_until_idle()
+
+    def _sink(self, ev, f):
+        if ev != 'pkt_out':
+            return
+        conn, t, pl = f['conn'], f['pkttype'], f['payload']
+        is_client = conn is getattr(self, 'conn', None)
+        if is_client and t >= 90 and X_REAL_COOKIE in pl:
+            self.leak.append(f'client sent the real cookie in packet {t}')
+        if is_client and t == 98:
+            from asyncssh.packet import SSHPacket
+            p = SSHPacket(pl)
+            p.get_byte(), p.get_uint32()
+            if p.get_string() == b'x11-req':
+                p.get_boolean()
+                single = p.get_boolean()
+                p.get_string()
+                cookie = bytes.fromhex(p.get_string().decode())
+                s = self.req_order[-1]
+                self.cookie[s] = cookie
+                self.single[s] = single
+        if not is_client and t == 90:
+            from asyncssh.packet import SSHPacket
+            p = SSHPacket(pl)
+            p.get_byte()
+            if p.get_string() == b'x11':
+                p.get_uint32(), p.get_uint32(), p.get_uint32()
+                self.x11_opens.append((p.get_string().decode(),
+                                       p.get_uint32()))
+
+    def flag(self, clause, detail, cause='x11'):
+        if not any(c == clause and k == cause for c, _, k in self.l1):
+            self.l1.append((clause, detail, cause))
+
+    # ------------------------------------------------------------------
+    def open_session(self, s, single):
+        """create_process with X11 forwarding; -> granted?"""
+        self.req_order.append(s)
+        self.release[s] = asyncio.Event()
+
+        async def go():
+            return await self.conn.create_process(
+                str(s), x11_forwarding=True, x11_display=self.local_display,
+                x11_auth_path=self.client_xauth,
+                x11_single_connection=single, encoding=None)
+        try:
+            self.proc[s] = self.loop.run_until_complete(go())
+        except asyncssh.ChannelOpenError:
+            self.loop.run_until_idle()
+            return False
+        self.loop.run_until_idle()
+        if not self.display.get(s):
+            return False
+        self.live.add(s)
+        self.last_port = 6000 + int(
+            self.display[s].rsplit(':', 1)[1].split('.')[0])
+        return True
+
+    def close_session(self, s):
+        self.release[s].set()
+
+        async def go():
+            await self.proc[s].wait_closed()
+        self.loop.run_until_complete(go())
+        self.loop.run_until_idle()
+        self.live.discard(s)
+        self.closed.add(s)
+
+    def published(self):
+        from asyncssh.x11 import walk_xauth
+        return [e.data for e in walk_xauth(self.server_xauth)]
+
+    def xconn(self, p, form):
+        """raw X client connects to the forwarded display presenting the
+        cookie of session p (0 / never requested: random bytes)"""
+        loop = self.loop
+        if self.last_port is None:
+            return 'connrefused'
+        cookie = self.cookie.get(p) or bytes(self.rng.randrange(256)
+                                             for _ in range(16))
+        endian = 'B' if form == 'bigendian' else 'l'
+        proto = X_WRONG_PROTO if form == 'wrongproto' else X_PROTO
+        setup = x_setup(cookie, proto, endian)
+        sent = setup[:-5] if form == 'truncated' else setup
+        if form == 'pipelined':
+            # the first requests arrive in one segment with the setup
+            sent = setup + X_PAYLOAD
+        app = App(self, 'X', True)
+        n_x, n_open = len(self.xconns), len(self.x11_opens)
+
+        async def cl():
+            await loop.create_connection(lambda: app, '127.0.0.1',
+                                         self.last_port)
+        try:
+            loop.run_until_complete(cl())
+        except OSError:
+            loop.run_until_idle()
+            return 'connrefused'
+        loop.run_until_idle()
+        sockname = app.t.get_extra_info('sockname')
+        cut = self.rng.randrange(1, len(setup))
+        parts = (sent,) if form == 'pipelined' else (sent[:cut], sent[cut:])
+        for part in parts:
+            if not app.lost:
+                app.t.write(part)
+            loop.run_until_idle()
+        reply = bytes(app.data)
+        new = self.xconns[n_x:]
+        refused_now = not b''.join(bytes(x.data) for x in new) and reply
+        if form not in ('truncated', 'pipelined') and not app.lost:
+            # a well-behaved client goes on after the X server's answer; a
+            # hostile one also after the failure reply (it ignores the EOF)
+            app.t.write(X_PAYLOAD)
+            loop.run_until_idle()
+        xbytes = b''.join(bytes(x.data) for x in new)
+        if refused_now and xbytes:
+            self.flag('RefusedReply', f'after the "Invalid authentication '
+                      f'key" reply the forwarder went on relaying: '
+                      f'{len(xbytes)} bytes of the refused X client reached '
+                      'the X server', 'bytes-after-refusal')
+            xbytes = b''
+        if xbytes:
+            out = 'served'
+        elif reply:
+            out = 'invalid'
+        elif (app.eof_seen or app.lost) and not new:
+            out = 'disabled'
+        elif form == 'truncated':
+            out = 'pending'
+        else:
+            out = 'silent'
+        # ---- monitors ----------------------------------------------------
+        live = p in self.live and p not in self.used
+        what = (f'cookie of session {p} ({"live" if p in self.live else "closed" if p in self.closed else "never granted"}'
+                f'{", single_connection" if self.single.get(p) else ""}'
+                f'{", already used" if p in self.used else ""}), {form}')
+        if out == 'served' and not live:
+            self.flag('ServedOnlyLive', f'an X connection presenting the '
+                      f'{what} was relayed to the X server '
+                      f'({len(xbytes)} bytes'
+                      f'{", with the real cookie" if X_REAL_COOKIE in xbytes else ""})')
+        if out == 'served':
+            want = x_setup(X_REAL_COOKIE, proto, endian) + X_PAYLOAD
+            if xbytes != want[:len(xbytes)] or \
+                    (form != 'truncated' and xbytes != want):
+                lost_tail = form == 'pipelined' and \
+                    xbytes == want[:len(setup)]
+                self.flag('RelayFIFO', f'X server received {len(xbytes)} '
+                          f'of {len(want)} bytes' +
+                          (': the requests that arrived in one segment with '
+                           'the setup were dropped' if lost_tail else
+                           ' that are not the setup with the real cookie '
+                           'followed by the client\'s requests'),
+                          'pipelined-behind-setup' if lost_tail else 'x11')
+            if reply != b'\x01XSERVER-SAYS-OK':
+                self.flag('RelayFIFO', f'X client did not receive the X '
+                          f'server\'s answer: {reply[:30]!r}')
+            if self.single.get(p):
+                self.used.add(p)
+        if form != 'truncated' and live and out != 'served':
+            self.flag('LiveIsServed', f'an X connection presenting the '
+                      f'{what} did not reach the X server ({out})')
+        if out in ('invalid', 'silent') or \
+                (form != 'truncated' and out != 'served' and new):
+            if reply != x_refusal(endian) or xbytes or \
+                    not (app.eof_seen or app.lost):
+                self.flag('RefusedReply', f'refused X connection ({what}): '
+                          f'reply {reply[:40]!r}, {len(xbytes)} bytes at the '
+                          'X server; expected the "Invalid authentication '
+                          'key" failure and nothing relayed')
+        if X_REAL_COOKIE in reply:
+            self.flag('RealCookieLeak', 'the real cookie was sent to the X '
+                      'client')
+        for o in self.x11_opens[n_open:]:
+            if o[1] != sockname[1]:
+                self.flag('Originator', f'x11 open reports originator {o}, '
+                          f'the X client is {sockname}')
+        if not app.lost:
+            app.t.close()
+        loop.run_until_idle()
+        for x in new:
+            if not (x.lost or x.eof):
+                self.flag('Released', 'the X server\'s connection stays '
+                          'open after the X client went away')
+        return out
+
+    def finish(self):
+        loop = self.loop
+        self.conn.close()
+        loop.run_until_idle()
+        if self.leak:
+            self.flag('RealCookieLeak', self.leak[0])
+        if self.last_port and ('127.0.0.1', self.last_port) in \
+                loop.net.listeners:
+            self.flag('NoListenerLeft', 'the X11 display listener survives '
+                      'its connection')
+        socks = [t for t in loop.net.transports
+                 if isinstance(t.protocol, SSHForwarder) and not t.closed]
+        if socks:
+            self.flag('NoListenerLeft', f'{len(socks)} relayed socket(s) '
+                      'survive the SSH connection')
+
+    def stop(self):
+        import shutil
+        _verif.set_sink(None)
+        try:
+            for ev in self.release.values():
+                ev.set()
+            self.conn.abort()
+            self.acceptor.close()
+            self.xsrv.close()
+            self.loop.run_until_idle()
+        except BaseException:           # pylint: disable=broad-except
+            pass
+        close_loop(self.loop)
+        shutil.rmtree(self.tmp, ignore_errors=True)
+
+
+def replay_x11(steps, workdir, server_allows=True, unix_display=False,
+               seed=0):
+    """steps: [(lbl, state)] of an X11.tla behaviour or bare labels."""
+    w = X11World(workdir, server_allows, unix_display, seed)
+    res = {'l1': [], 'diverged': None, 'script': []}
+    pending = {}
+    try:
+        for i, step in enumerate(steps):
+            lbl, st = step if isinstance(step, tuple) and len(step) == 2 \
+                and isinstance(step[1], dict) else (step, None)
+            op = lbl[0]
+            div = None
+            if op == 'request':
+                pending[lbl[1]] = bool(lbl[2])
+                res['script'].append(f'req{lbl[1]}{"s" if lbl[2] else ""}')
+            elif op == 'answer':
+                s = lbl[1]
+                ok = w.open_session(s, pending.pop(s))
+                res['script'].append(f'ans{s}={"ok" if ok else "no"}')
+                if ok != server_allows:
+                    div = f'x11-req of session {s}: granted={ok}'
+            elif op == 'close':
+                if lbl[1] in w.live:
+                    w.close_session(lbl[1])
+                    res['script'].append(f'close{lbl[1]}')
+                else:
+                    div = f'close {lbl[1]}: not open'
+            elif op == 'xconn':
+                out = w.xconn(lbl[1], lbl[2])
+                res['script'].append(f'x({lbl[1]},{lbl[2]})={out}')
+                if len(lbl) > 3 and out != lbl[3]:
+                    div = f'xconn {lbl[1]} {lbl[2]}: code={out} model={lbl[3]}'
+            if st is not None and div is None and op != 'request':
+                has = ('127.0.0.1', w.last_port) in w.loop.net.listeners \
+                    if w.last_port else False
+                if has != st['slsn']:
+                    div = f'{op}: display listener code={has} model={st["slsn"]}'
+                elif st['pub'] and w.cookie.get(st['pub']) not in \
+                        w.published():
+                    div = (f'{op}: Xauthority does not hold the cookie of '
+                           f'session {st["pub"]}')
+                elif (w.conn._x11_listener is not None) != st['clsn']:
+                    div = f'{op}: client listener model={st["clsn"]}'
+            if div and not res['diverged']:
+                res['diverged'] = f'step {i}: {div}'
+        w.finish()
+        res['l1'] = list(w.l1)
+        res['loop_exceptions'] = [repr(c.get('exception') or c.get('message'))
+                                  for c in w.loop.exceptions]
+    finally:
+        w.stop()
+    return res
